@@ -10,7 +10,8 @@ VERIF = os.path.dirname(os.path.dirname(os.path.abspath(__file__)))
 SPEC = os.path.join(VERIF, "spec")
 HARNESS = os.environ.get("VERIF_HARNESS", os.path.join(VERIF, "harness"))
 RUNS = os.path.join(VERIF, "runs")
-EVID = os.path.join(VERIF, "evidence")
+EVID = os.path.join(VERIF, "evidence") if not os.environ.get("VERIF_RUNS_SUFFIX") else os.path.join(RUNS, "evidence" + os.environ["VERIF_RUNS_SUFFIX"])
+SKIP_MC = bool(os.environ.get("VERIF_SKIP_MC"))  # self-test only: skip code-independent exhaustive model checking
 TLC_WORKERS = int(os.environ.get("VERIF_TLC_WORKERS", "8"))
 
 
@@ -23,7 +24,7 @@ def log(*a):
 
 
 def rundir(prop):
-    d = os.path.join(RUNS, prop)
+    d = os.path.join(RUNS, prop + os.environ.get("VERIF_RUNS_SUFFIX", ""))
     shutil.rmtree(d, ignore_errors=True)
     os.makedirs(d, exist_ok=True)
     return d
